@@ -28,6 +28,8 @@ From FB.Proofs Require Import ReplayLaws BuildFileLaws CoreRebuildDefs CoreRebui
 (* T1g: Model/BuildDirs.v and Model/CreatedFiles.v are equal to the translation of build_dirs.py / created_files.py
    (Gen/BookGen.v, regenerated on every run); a change of those sources that the model does not follow breaks this import *)
 From FB.Proofs Require BookGenLaws.
+From FB.Proofs Require ExecGenLaws.   (* T1g: the model routines are equal to the translation of the source (Gen/ExecGen.v) *)
+From FB.Proofs Require CacheGenLaws.   (* T1g: the model routines are equal to the translation of the source (Gen/CacheGen.v) *)
 Import ListNotations.
 
 Theorem C05_unchanged_rebuild_hits_everything : forall fs cf old vers clock nextid root nm v s1 clock' nextid',
